@@ -719,12 +719,21 @@ PROPS = {
         "level": "proof",
         "level_prefix": "Partial proof -- contracts discharged without bound on the mechanisms named below, not the whole statement (bounded stand-ins and what is left out are listed): ",
         "units": ["rtypebitmap", "tsig", "rdcompose", "rdparse", "rdbin", "rdnames"],
+        "extra_searches": [
+            {"bin": "c05_search_opt_options", "crate": "replay", "release": True,
+             "what": "OPT options: every option code 0..=20 and 65001 with every payload of at most 4 octets over six octet values, client subnets of "
+                     "both families with every prefix length, cookies of 0..=41 octets, extended errors with UTF-8 and non-UTF-8 text, key tag and "
+                     "algorithm lists, CHAIN names (37 294 pairs) through the typed option parsers: whatever parses reports the length it composes, "
+                     "and what it composes parses back and composes to the same octets -- on the real crate"},
+        ],
         "vx_search": {"bin": "c05_search_small_rdata", "crate": "replay", "release": True,
                       "what": "317 small values of 34 record data types (A, AAAA, MX, SRV, NS, CNAME, PTR, DNAME, MB, MD, MF, MG, MR, MINFO, RP, NAPTR, SOA, NSEC, "
                               "RRSIG, DNSKEY, DS, CDS, CDNSKEY, TLSA, SSHFP, OPENPGPKEY, ZONEMD, CAA, IPSECKEY with all four gateway kinds, NSEC3PARAM, "
                               "NSEC3, TXT, HINFO; boundary values, mixed-case names, full 32-octet bitmap "
                               "windows, 255-octet strings, salts and hashes): rdlen == octets written, parse(compose(x)) == x, canonical form == wire form with "
-                              "exactly the listed names lower-cased, and the same through ZoneRecordData -- on the real crate"},
+                              "exactly the listed names lower-cased, the same through ZoneRecordData and through the `&T` forwarders, and as records of a "
+                              "message built without and with each of the three name compressors (the RDLENGTH frames the data, the records read back as "
+                              "the value) -- on the real crate"},
         "kani": [
             {"group": "g0", "name": "c05_a_roundtrip", "kind": "complete", "tier": "quick",
              "what": "A: every address: rdlen == 4 == octets written; parse(compose(x)) == x consuming all; canonical form identical"},
